@@ -53,3 +53,39 @@ prop(
                  "the type-marker table and the vcs/soft classes are transcribed from the ProjectType documentation"],
     tiers={"quick": {"shards": 4, "budget": 30}, "thorough": {"shards": NC, "budget": 120}},
 )
+
+prop(
+    "C16",
+    title="Events survive a JSON round trip and the format is stable",
+    engine="pure",
+    level="exploration",
+    level_text=("exhaustive over every filesystem event kind, first-class signal, source, file type and the boundary exit codes; "
+                "seeded generation of whole events (0-8 tags in any order, hostile UTF-8 paths and metadata, full-range numbers); "
+                "bounded-exhaustive enumeration of JSON tag objects per known kind (every subset of its own fields x irrelevant "
+                "extra fields x contradictory completion fields). Oracles: equality after the round trip, an independent "
+                "encoder of the documented wire format, and a totality oracle for the decoder (never fails, never another kind, "
+                "Unknown exactly when an indispensable field is missing)"),
+    level_note=("trusts serde_json; wrong JSON *types* for a field (a string pid) are outside the statement and not generated; the "
+                "documented format table follows the suite's snapshots where they and the CLI help text differ"),
+    technique="round-trip + differential monitor against an independent encoder/decoder table; Miri overlay on the same slice (thorough)",
+    rule=("exhaustive part + N seeded random events per shard; a generated event is non-trivial if it has >=1 tag and distinct "
+          "by its tag-kind sequence and metadata size; decoder objects are distinct by their JSON text"),
+    tiers={"quick": {"shards": 4, "budget": 30}, "thorough": {"shards": NC, "budget": 120}},
+)
+
+prop(
+    "C17",
+    title="Path summaries handed to commands are faithful",
+    engine="pure",
+    level="exploration",
+    level_text=("seeded generation of event batches (0-12 events, 0-4 paths and 0-3 kinds each, shared / disjoint prefixes, a path "
+                "equal to the common directory, duplicates across events, events without paths or kinds) through the real "
+                "summary functions (hook H3 exposes the CLI wrappers); an independent re-computation decides: join-back of every "
+                "(kind, path), no unjustified entry, unique + byte-sorted entries, longest common directory, and the exact "
+                "line format. Every event kind alone is covered exhaustively for the category table"),
+    level_note="paths are absolute UTF-8 without ':' (the separator), as produced by the filesystem source",
+    technique="reference-model monitor: independent re-computation of the environment summary and line format for each generated batch",
+    rule=("N seeded random batches per shard + every kind x {file, dir, unknown} alone; non-trivial = batch with >=2 paths, "
+          "distinct by the (path, file type, category) sequence"),
+    tiers={"quick": {"shards": 4, "budget": 30}, "thorough": {"shards": NC, "budget": 120}},
+)
